@@ -447,4 +447,42 @@ theorem filterMap_length_of_isSome {α β} (f : α → Option β) (l : List α) 
     | some y => simp [List.filterMap_cons, hfx, ih (fun z hz => h z (by simp [hz]))]
 
 
+/-! ### well-formedness proper + no exception shape ⇒ the reader's well-formedness -/
+
+theorem kinds_cases (ks : List LocKind) (h : ks.Nodup) :
+    ks = [] ∨ ks = [.invariant] ∨ ks = [.exponentialrate] ∨ ks = [.invariant, .exponentialrate] ∨ ks = [.exponentialrate, .invariant] := by
+  match ks, h with
+  | [], _ => simp
+  | [a], _ => cases a <;> simp
+  | [a, b], h => cases a <;> cases b <;> simp_all
+  | a :: b :: c :: r, h => cases a <;> cases b <;> cases c <;> simp_all
+
+theorem loc_wf_of (l : ALoc) (h0 : l.wf0 = true) (hs : l.shapes = []) : l.wf = true := by
+  simp only [ALoc.wf0, Bool.and_eq_true, decide_eq_true_eq] at h0
+  have hk := kinds_cases _ h0.1
+  have hns : l.labels.map (·.1) ≠ [.exponentialrate, .invariant] := by
+    intro heq; simp [ALoc.shapes, heq] at hs
+  have hord : labelsOrdered l.labels = true := by
+    obtain ⟨id, name, labels, u, c⟩ := l
+    simp only at hk hns
+    match labels, hk, hns with
+    | [], _, _ => rfl
+    | [(k, a)], _, _ => rfl
+    | [(k1, a), (k2, b)], hk, hns =>
+      cases k1 <;> cases k2 <;> simp_all [labelsOrdered]
+    | x :: y :: z :: r, hk, _ => simp at hk
+  simp [ALoc.wf, hord, h0.2]
+
+theorem wf_of (M : AModel) (h0 : M.wf0 = true) (hs : M.exceptionShapes = []) : M.wf = true := by
+  simp only [AModel.wf, AModel.wf0, List.all_eq_true] at *
+  intro t ht
+  have h := h0 t ht
+  simp only [ATempl.wf0, Bool.and_eq_true, List.all_eq_true] at h
+  obtain ⟨⟨⟨⟨⟨h1, h2⟩, h3⟩, h4⟩, h5⟩, h6⟩ := h
+  simp only [AModel.exceptionShapes, List.flatMap_eq_nil_iff] at hs
+  have hl : ∀ l ∈ t.locs, l.wf = true := fun l hl => loc_wf_of l (h4 l hl) (hs t ht l hl)
+  simp only [ATempl.wf, Bool.and_eq_true, List.all_eq_true]
+  exact ⟨⟨⟨⟨⟨h1, h2⟩, h3⟩, hl⟩, h5⟩, h6⟩
+
+
 end UtapModel.AM
